@@ -167,6 +167,14 @@ pub struct World {
     hostile_after: usize,
     /// rare long histories: hundreds of requests, so that ids / counters grow large
     pub long_history: bool,
+    /// life after an error: 0 = no call failed yet, 1 = a handle_input call failed and the run went
+    /// on, nothing has succeeded since (the session may legitimately refuse everything from now
+    /// on), 2 = a later call succeeded, so the session is alive and is judged as usual
+    post_err: u8,
+    /// what would have been reported for a refusal in phase 1, reported once phase 2 is reached
+    deferred: Option<Violation>,
+    /// transactions whose answer made a call fail: the peer does not mention them again
+    dead_tx: std::collections::BTreeSet<u32>,
 }
 
 fn viol(ctx: &Ctx, class: &str, msg: String) -> Violation {
@@ -201,7 +209,7 @@ impl World {
             })
             .map(|(t, _)| *t)
             .collect();
-        let stale: Vec<u32> = self.model.issued_tx.iter().filter(|t| !self.model.pending.contains_key(t)).copied().collect();
+        let stale: Vec<u32> = self.model.issued_tx.iter().filter(|t| !self.model.pending.contains_key(t) && !self.dead_tx.contains(t)).copied().collect();
         match ctx.ch.weighted("op.arg.txk", &[8, 2, 1, 1, 1]) {
             0 if !pending.is_empty() => pending[ctx.ch.draw("op.arg.tx", pending.len() as u64) as usize] as f64,
             1 if !stale.is_empty() => stale[ctx.ch.draw("op.arg.tx", stale.len() as u64) as usize] as f64,
@@ -373,7 +381,16 @@ impl World {
                 let obj = if ctx.ch.chance("op.arg.ecma", 1, 4) { AV::Ecma(props) } else { AV::Obj(props) };
                 (msg::data(sid, ts, &[AV::s("onMetaData"), obj]), 4)
             }
-            6 => (msg::user_control(ts, 6, ctx.ch.draw("op.arg.pingts", 1 << 32) as u32, None), 2),
+            6 => {
+                let mut m = msg::user_control(ts, 6, ctx.ch.draw("op.arg.pingts", 1 << 32) as u32, None);
+                if ctx.ch.chance("op.arg.pingsid", 1, 5) {
+                    m.msid = self.pick_sid(ctx);
+                    if m.msid != 0 {
+                        ctx.probe("peer.ping_on_nonzero_stream");
+                    }
+                }
+                (m, 2)
+            }
             7 => match ctx.ch.draw("op.arg.otherk", 5) {
                 0 => (msg::user_control(ts, 7, 77, None), 2),
                 1 => (msg::ack(ts, ctx.ch.draw("op.arg.seq", 1 << 32) as u32), 2),
@@ -443,7 +460,7 @@ impl World {
         let legal = self.enc.legal_formats(csid, &m);
         let opts: Vec<u8> = (0..4u8).rev().filter(|f| legal[*f as usize]).collect();
         let f = opts[ctx.ch.draw("op.arg.fmt", opts.len() as u64) as usize];
-        ctx.tr(|| format!("  peer: {:?} [{}] csid {} fmt {}", classify(&m).kind(), m.brief(), csid, f));
+        ctx.tr(|| format!("  peer: {:?} [{}] csid {} fmt {}", classify(&m), m.brief(), csid, f));
         ctx.ev(120, m.type_id as u64, m.payload.len() as u64);
         self.push(&m, csid, f);
         self.peer_msgs += 1;
@@ -491,11 +508,43 @@ impl World {
                 let state_changers = last_in.iter().filter(|i| matches!(i, CIn::Result { .. } | CIn::Error { .. } | CIn::OnStatus { .. })).count();
                 let permitted = last_in.iter().any(|i| self.model.err_permitted(i)) || state_changers >= 2 || (state_changers >= 1 && last_in.len() >= 2);
                 if !permitted {
-                    return Err(viol(
+                    let v = viol(
                         ctx,
                         "unexpected-session-error",
                         format!("handle_input returned Err({}) in model state [{}] although nothing in the call permits it: {:?}", e, self.model.summary(), last_in),
-                    ));
+                    );
+                    if self.post_err != 1 {
+                        return Err(v);
+                    }
+                    // nothing has succeeded since the first error: the session may be refusing
+                    // everything; reported only if it turns out to be alive
+                    if self.deferred.is_none() {
+                        self.deferred = Some(v);
+                    }
+                }
+                // Life after an error.  The statement does not make an error terminal: "each
+                // server result, error or status advances exactly the transaction or request it
+                // answers", also when the call that carried it failed.  Go on when the failing
+                // call completed exactly one message, nothing else is buffered, and no
+                // acknowledgement can have been serialized and lost with the discarded results.
+                let single = last_in.len() == 1 && self.cli.c.in_tap_clean() && !self.cli.c.peer_window_seen;
+                let class_ok = single && (self.post_err == 1 || matches!(last_in[0], CIn::Result { .. } | CIn::Error { .. } | CIn::OnStatus { .. } | CIn::Audio { .. } | CIn::Video { .. } | CIn::MetaData { .. }));
+                if class_ok && ctx.ch.chance("op.arg.goon", 1, 2) {
+                    self.cli.c.closed = false;
+                    self.cli.c.check_ack = false;
+                    if self.post_err == 0 {
+                        self.post_err = 1;
+                    }
+                    if permitted {
+                        // the answered transaction is spent (or not -- the statement does not
+                        // say), nothing else may have moved
+                        if let CIn::Result { tx: Some(t), .. } | CIn::Error { tx: Some(t), .. } = &last_in[0] {
+                            if self.model.pending.remove(t).is_some() {
+                                self.dead_tx.insert(*t);
+                            }
+                        }
+                    }
+                    ctx.probe("f.continued_after_error");
                 }
                 Ok(())
             }
@@ -503,6 +552,7 @@ impl World {
                 if !self.model_alive {
                     return Ok(());
                 }
+                self.alive_after_error(ctx)?;
                 let inputs: Vec<CIn> = out.in_msgs.iter().map(|(m, _)| classify(m)).collect();
                 let outs = match tracked(&out) {
                     Some(o) => o,
@@ -529,9 +579,32 @@ impl World {
         }
     }
 
-    fn apply<T>(&mut self, ctx: &mut Ctx, r: Result<ClientModel, (&'static str, String)>, _t: T) -> RunResult {
+    /// A call succeeded: if the run went on after an error, the session has now shown that it is
+    /// alive, and a refusal tolerated meanwhile is reported.
+    fn alive_after_error(&mut self, ctx: &mut Ctx) -> RunResult {
+        if self.post_err == 1 {
+            self.post_err = 2;
+            ctx.probe("f.alive_after_error");
+            if let Some(v) = self.deferred.take() {
+                if self.mode == FMode::C10 {
+                    return Err(v);
+                }
+                self.model_alive = false;
+            }
+        }
+        Ok(())
+    }
+
+    /// `ok` = the application call returned Ok.
+    fn apply(&mut self, ctx: &mut Ctx, r: Result<ClientModel, (&'static str, String)>, ok: bool) -> RunResult {
         if !self.model_alive {
             return Ok(());
+        }
+        if ok {
+            self.alive_after_error(ctx)?;
+            if !self.model_alive {
+                return Ok(());
+            }
         }
         match r {
             Ok(m2) => {
@@ -539,7 +612,15 @@ impl World {
                 ctx.state(self.model.state_hash());
                 Ok(())
             }
-            Err((class, msg)) => self.model_fail(ctx, class.to_string(), msg),
+            Err((class, msg)) => {
+                if !ok && self.post_err == 1 {
+                    if self.deferred.is_none() {
+                        self.deferred = Some(viol(ctx, class, msg));
+                    }
+                    return Ok(());
+                }
+                self.model_fail(ctx, class.to_string(), msg)
+            }
         }
     }
 
@@ -598,7 +679,7 @@ impl World {
                 match outs {
                     Some(o) => {
                         let res = self.model.request_connection(&app, ok, &o);
-                        self.apply(ctx, res, ())
+                        self.apply(ctx, res, ok)
                     }
                     None => {
                         self.model_alive = false;
@@ -638,7 +719,7 @@ impl World {
                 match outs {
                     Some(o) => {
                         let res = self.model.request_stream(play, &key, kind_s, ok, &o);
-                        self.apply(ctx, res, ())
+                        self.apply(ctx, res, ok)
                     }
                     None => {
                         self.model_alive = false;
@@ -690,7 +771,7 @@ impl World {
                 match outs {
                     Some(o) => {
                         let res = self.model.publish_item(&want, ok, &o);
-                        self.apply(ctx, res, ())
+                        self.apply(ctx, res, ok)
                     }
                     None => {
                         self.model_alive = false;
@@ -712,8 +793,9 @@ impl World {
                         if !o.is_empty() {
                             ctx.probe("f.stop_emitted_delete");
                         }
+                        ctx.tr(|| format!("    -> ok={} {:?}", ok, o));
                         let res = self.model.stop(play, ok, &o);
-                        self.apply(ctx, res, ())
+                        self.apply(ctx, res, ok)
                     }
                     None => {
                         self.model_alive = false;
@@ -788,6 +870,9 @@ pub fn build(ctx: &mut Ctx, mode: FMode) -> Result<World, Violation> {
         history: Vec::new(),
         hostile_after: 0,
         long_history: false,
+        post_err: 0,
+        deferred: None,
+        dead_tx: std::collections::BTreeSet::new(),
     })
 }
 
